@@ -44,6 +44,8 @@ func (p *fakeProducer) AddMessageToTxn(*sarama.ConsumerMessage, string, *string)
 
 type recVals struct {
 	v6                bool
+	v4in16            bool // the IPv4 addresses are held in net.IP's 16-byte form
+	altOrder          bool // the record lists its elements in another order (another template layout under the same id)
 	sport, dport      uint16
 	proto             uint8
 	start, end        uint32
@@ -74,11 +76,14 @@ func elements(r recVals) []entities.InfoElementWithValue {
 	if r.v6 {
 		els = append(els, entities.NewIPAddressInfoElement(ie("sourceIPv6Address", 0), net.ParseIP("2001:db8::1")),
 			entities.NewIPAddressInfoElement(ie("destinationIPv6Address", 0), net.ParseIP("2001:db8::2")))
+	} else if r.v4in16 {
+		els = append(els, entities.NewIPAddressInfoElement(ie("sourceIPv4Address", 0), net.ParseIP("10.0.0.1")),
+			entities.NewIPAddressInfoElement(ie("destinationIPv4Address", 0), net.ParseIP("10.0.0.2")))
 	} else {
 		els = append(els, entities.NewIPAddressInfoElement(ie("sourceIPv4Address", 0), net.ParseIP("10.0.0.1").To4()),
 			entities.NewIPAddressInfoElement(ie("destinationIPv4Address", 0), net.ParseIP("10.0.0.2").To4()))
 	}
-	return append(els,
+	els = append(els,
 		entities.NewUnsigned16InfoElement(ie("sourceTransportPort", 0), r.sport),
 		entities.NewUnsigned16InfoElement(ie("destinationTransportPort", 0), r.dport),
 		entities.NewUnsigned8InfoElement(ie("protocolIdentifier", 0), r.proto),
@@ -91,6 +96,14 @@ func elements(r recVals) []entities.InfoElementWithValue {
 		entities.NewUnsigned16InfoElement(ie("destinationServicePort", A), r.svcPort),
 		entities.NewStringInfoElement(ie("sourcePodName", A), r.srcPod),
 	)
+	if r.altOrder {
+		// same elements, other positions: ports swapped, counters swapped, times swapped
+		els[2], els[3] = els[3], els[2]
+		els[5], els[6] = els[6], els[5]
+		els[7], els[8] = els[8], els[7]
+		els[9], els[10] = els[10], els[9]
+	}
+	return els
 }
 
 type msgIn struct {
@@ -150,7 +163,13 @@ func Check_Publish() {
 			n := sx.Range("records", 0, 2)
 			v6 := sx.Choose("ipv6", 2) == 1
 			for j := 0; j < n; j++ {
-				m.recs = append(m.recs, drawRec(v6))
+				r := drawRec(v6)
+				// the second message of a stream uses another element order under the
+				// same template id (another exporter / a re-defined template); the second
+				// record of a message holds its IPv4 addresses in the 16-byte form
+				r.altOrder = i == 1
+				r.v4in16 = j == 1
+				m.recs = append(m.recs, r)
 			}
 		}
 		in = append(in, m)
